@@ -483,3 +483,137 @@ func (t *SchTy) Delimited(out []*SchTy) []*SchTy {
 	}
 	return out
 }
+
+func schDistinct(l []string) bool {
+	seen := map[string]bool{}
+	for _, x := range l {
+		if seen[x] {
+			return false
+		}
+		seen[x] = true
+	}
+	return true
+}
+
+// WF mirrors coq/Schema/Types.v `wf` (the OCaml driver evaluates the extracted one; this copy lets the
+// generators refuse derived schemas — siblings — that are not well-formed).
+func (t *SchTy) WF() bool {
+	switch t.K {
+	case 'L', 'M':
+		return t.Elem.WF()
+	case 'R':
+		var names, keys []string
+		for _, f := range t.Fields {
+			names = append(names, f.Name)
+			keys = append(keys, f.Key)
+			if !f.T.WF() {
+				return false
+			}
+		}
+		if !schDistinct(names) {
+			return false
+		}
+		switch t.SRepr {
+		case 'm':
+			return schDistinct(keys)
+		case 't', 'p':
+			seenOpt := false
+			for _, f := range t.Fields {
+				if f.Key != f.Name {
+					return false
+				}
+				if t.SRepr == 't' && seenOpt && !f.Opt {
+					return false
+				}
+				seenOpt = seenOpt || f.Opt
+			}
+		case 'j':
+			if len(t.Delim) != 1 || len(t.Fields) == 0 {
+				return false
+			}
+			for _, f := range t.Fields {
+				if f.Opt || f.Nul || f.T.ReprKind() != 's' || f.Key != f.Name {
+					return false
+				}
+			}
+		}
+	case 'U':
+		var names, discs []string
+		kinds := map[byte]bool{}
+		for _, m := range t.Members {
+			names = append(names, m.Name)
+			discs = append(discs, m.Disc)
+			if !m.T.WF() {
+				return false
+			}
+			switch t.URepr {
+			case 'd':
+				if kinds[m.Kind] || m.T.ReprKind() != m.Kind {
+					return false
+				}
+				kinds[m.Kind] = true
+			case 'p':
+				if m.T.ReprKind() != 's' {
+					return false
+				}
+			}
+		}
+		if !schDistinct(names) {
+			return false
+		}
+		switch t.URepr {
+		case 'k':
+			return schDistinct(discs)
+		case 'p':
+			if t.Delim != "" {
+				if !schDistinct(discs) {
+					return false
+				}
+				for _, d := range discs {
+					if strings.Index(d+t.Delim, t.Delim) != len(d) {
+						return false
+					}
+				}
+			} else {
+				for i, a := range discs {
+					for j, b := range discs {
+						if i != j && strings.HasPrefix(b, a) {
+							return false
+						}
+					}
+				}
+			}
+		}
+	case 'E':
+		var names, strs []string
+		ints := map[int64]bool{}
+		for _, e := range t.Enums {
+			names = append(names, e.Name)
+			strs = append(strs, e.Str)
+			if t.IntRepr && ints[e.Int] {
+				return false
+			}
+			ints[e.Int] = true
+		}
+		return schDistinct(names) && (t.IntRepr || schDistinct(strs))
+	}
+	return true
+}
+
+// Crossing: some field's serial key is another field's name.  Feeding the type-level keys of such a
+// struct to its representation builder addresses one field twice (once by the alias leniency); when that
+// field holds a slice / map / struct, bindnode merges the two values — the facet of dup_field the model
+// does not cover.
+func (t *SchTy) Crossing() bool {
+	if t.K != 'R' {
+		return false
+	}
+	for i, f := range t.Fields {
+		for j, g := range t.Fields {
+			if i != j && f.Key == g.Name {
+				return true
+			}
+		}
+	}
+	return false
+}
